@@ -10,6 +10,7 @@ import (
 	"runtime"
 	"runtime/debug"
 	"strings"
+	"time"
 
 	lz4 "github.com/pierrec/lz4/v4"
 
@@ -157,7 +158,26 @@ type decodeOutcome struct {
 
 var smallBufs = map[int][]byte{}
 
-func decodeStream(stream []byte, rc readCfg, limit int) (res decodeOutcome) {
+// decodeStream runs decodeStream1 under a watchdog: sub-millisecond work that has not returned
+// after 30 s is a call that blocks forever (free-running goroutines; the exhaustive, timer-free
+// decision of blocking is C08's, under the controlled scheduler).
+func decodeStream(stream []byte, rc readCfg, limit int) decodeOutcome {
+	ch := make(chan decodeOutcome, 1)
+	go func() { ch <- decodeStream1(stream, rc, limit) }()
+	select {
+	case r := <-ch:
+		return r
+	case <-time.After(watchdog):
+		return decodeOutcome{err: errBlocked}
+	}
+}
+
+var (
+	watchdog   = 30 * time.Second
+	errBlocked = errors.New("call does not return (blocked for 30 s on sub-millisecond work)")
+)
+
+func decodeStream1(stream []byte, rc readCfg, limit int) (res decodeOutcome) {
 	src := &countingSrc{data: stream}
 	defer func() {
 		if r := recover(); r != nil {
@@ -176,11 +196,7 @@ func decodeStream(stream []byte, rc readCfg, limit int) (res decodeOutcome) {
 		res.out, res.err, res.clean = out.Bytes(), err, err == nil
 		return
 	}
-	buf := smallBufs[rc.Buf]
-	if buf == nil {
-		buf = make([]byte, rc.Buf)
-		smallBufs[rc.Buf] = buf
-	}
+	buf := make([]byte, rc.Buf)
 	var out []byte
 	for calls := 0; ; calls++ {
 		n, err := r.Read(buf)
@@ -227,6 +243,9 @@ var c05Lenient = ref.Opts{NoVersion: true, NoReserved: true, NoDecodedMax: true,
 
 func c05Check(k *streamCase, base *baseFrame) *ev.Finding {
 	res := decodeStream(k.bytes(), k.Read, 1<<22)
+	if res.err == errBlocked {
+		return &ev.Finding{Sig: fmt.Sprintf("Reader blocks forever on a corrupted frame; conc>1=%v", k.Read.Conc > 1), What: fmt.Sprintf("base=%s mutation=%s", k.Base, k.Mut), Case: k.frozen()}
+	}
 	if res.panic != "" || !res.clean {
 		return nil // C07 / not an acceptance
 	}
@@ -316,6 +335,27 @@ func enumMutations(b *baseFrame, all []baseFrame, thorough bool, emit mutEmit) {
 		for _, f := range p0.Fields {
 			if f.Off > 0 {
 				emit(fmt.Sprintf("truncate to %d", f.Off), fr[:f.Off])
+			}
+		}
+	}
+	// whole-field substitutions: a field replaced by all zeros / all ones
+	if p0, _ := ref.Parse(fr, c05Lenient); p0 != nil {
+		for _, f := range p0.Fields {
+			if f.Kind == "bdata" || f.Kind == "skip-data" || f.Len == 0 {
+				continue
+			}
+			for _, v := range []byte{0x00, 0xFF} {
+				copy(m, fr)
+				same := true
+				for i := 0; i < f.Len; i++ {
+					if m[f.Off+i] != v {
+						same = false
+					}
+					m[f.Off+i] = v
+				}
+				if !same {
+					emit(fmt.Sprintf("field %s at %d := all %#x", f.Kind, f.Off, v), m)
+				}
 			}
 		}
 	}
@@ -431,6 +471,9 @@ func c06Check(k *streamCase, full []byte, content []byte, legacy bool) *ev.Findi
 	}
 	if res.panic != "" {
 		return nil // C07
+	}
+	if res.err == errBlocked {
+		return &ev.Finding{Sig: fmt.Sprintf("Reader blocks forever on a truncated frame; conc>1=%v", k.Read.Conc > 1), What: fmt.Sprintf("base=%s cut=%d", k.Base, cut), Case: k.frozen()}
 	}
 	p, _ := ref.Parse(full, c05Lenient)
 	where := "?"
@@ -564,6 +607,9 @@ func c07Check(k *streamCase, wantInvalid bool, skipCheck int, allocBound int64) 
 			cls = cls[:60]
 		}
 		return mk(fmt.Sprintf("Reader panics: %s; %s conc>1=%v", cls, path, k.Read.Conc > 1), res.panic)
+	}
+	if res.err == errBlocked {
+		return mk(fmt.Sprintf("Reader blocks forever; %s conc>1=%v", path, k.Read.Conc > 1), "")
 	}
 	if res.err != nil && strings.Contains(res.err.Error(), "does not end") {
 		return mk(fmt.Sprintf("Reader does not terminate; %s conc>1=%v", path, k.Read.Conc > 1), "")
